@@ -321,3 +321,60 @@ example : (evalPr BertE.C06.exCfg e2eHost e2eSys 1 [] []).stage = .final ∧
     e2eHost.status 2 = .successful := by decide +kernel
 
 end BertE.C03
+
+
+/-! ### Work package Close: the queue path without the `Validated` hypothesis
+
+`Close.InvV` (the invariant strengthened by the clauses `Close.VX`, inductive: `C01_step_closed2`) implies
+`Select.Validated`; the theorems on the computed selection restated on it, and along whole histories. -/
+namespace BertE.C03
+open BertE.Git BertE.Flow BertE.C01 BertE.Select BertE.Close
+
+/-- the heads of the computed selection are green -/
+theorem C03_heads_green_closed2 (s : Sys) (h : InvV s) (b : Builds) : HeadsGreen b s (selectOf s b false) :=
+  C03_heads_green_closed s h.inv (close_validated_of_invV h) b
+
+/-- **C03, queue path, selection computed, no `Validated` hypothesis**: every destination branch that moves in a
+    queue evaluation — at any crash point, with any refused ref — moves to a commit whose build is SUCCESSFUL. -/
+theorem C03_queue_closed2 (s : Sys) (h : InvV s) (b : Builds)
+    (rej : Ref → Bool) (k : Nat) (d : Dest) (new : Commit)
+    (hnew : (observable s (planQueues s (selectOf s b false)) rej k).get (.dest d) = some new)
+    (hmoved : s.remote.get (.dest d) ≠ some new) : b new = .successful :=
+  C03_queue_closed s h.inv (close_validated_of_invV h) b rej k d new hnew hmoved
+
+/-- the same for the uninterrupted event of the system model -/
+theorem C03_step_closed2 (s : Sys) (h : InvV s) (b : Builds) (d : Dest) (new : Commit)
+    (hnew : (step s (evalQueuesB s b false)).1.remote.get (.dest d) = some new)
+    (hmoved : s.remote.get (.dest d) ≠ some new) : b new = .successful :=
+  C03_step_closed s h.inv (close_validated_of_invV h) b d new hnew hmoved
+
+theorem C03_failed_needs_newer_closed2 (s : Sys) (h : InvV s) (b : Builds)
+    (d : Dest) (e : QEntry) (c : Commit) (hc : qwOf s.remote e d = some c) (hbad : b c ≠ .successful) :
+    lastTargeting (selected s (selectOf s b false)) d ≠ some e :=
+  C03_failed_needs_newer_closed s h.inv (close_validated_of_invV h) b d e c hc hbad
+
+/-- **C03 along histories**: after ANY admissible history from a state satisfying the strengthened invariant
+    (e.g. the empty repository, `C01_invV_init`), a queue evaluation with any build-status table moves a
+    destination only to a commit whose build is SUCCESSFUL. -/
+theorem C03_run_closed2 (s0 : Sys) (h : InvV s0) (evs : List EventB) (hadm : AdmAllV s0 evs) (b : Builds)
+    (d : Dest) (new : Commit)
+    (hnew : (step (runB s0 evs) (evalQueuesB (runB s0 evs) b false)).1.remote.get (.dest d) = some new)
+    (hmoved : (runB s0 evs).remote.get (.dest d) ≠ some new) : b new = .successful :=
+  C03_step_closed2 _ (close_runV_inv evs h hadm) b d new hnew hmoved
+
+/-- Non-vacuity: `exSys` = the empty repository after `exHistory`; development/5.1 moves to commit 1 whose build is
+    SUCCESSFUL under `exBuilds`. -/
+example : (step exSys (evalQueuesB exSys exBuilds false)).1.remote.get (.dest (.dev 5 (some 1))) = some 1 ∧
+    exBuilds 1 = .successful := by
+  have hev : evalQueuesB exSys exBuilds false = .evalQueues [1] := by
+    unfold evalQueuesB; rw [exSys_select.1]
+  have h1 : (step exSys (evalQueuesB exSys exBuilds false)).1.remote.get (.dest (.dev 5 (some 1))) = some 1 := by
+    rw [hev]; decide
+  exact ⟨h1, C03_run_closed2 exEmpty (close_invV_init true false) exHistory close_exHistory_admV exBuilds
+    (.dev 5 (some 1)) 1 h1 (by decide)⟩
+
+example := C03_queue_closed2 Select.exSys close_exSys_invV Select.exBuilds
+example := C03_heads_green_closed2 Select.exSys close_exSys_invV Select.exBuilds
+example := C03_failed_needs_newer_closed2 Select.exSys close_exSys_invV Select.exBuilds
+
+end BertE.C03
